@@ -22,6 +22,7 @@ def describe(tier):
     return {
         "rule": f"every valid in-domain expression AST with >= 1 format-constraint key and (leaves, labelling) in {b['sizes']}, plus FC-only "
                 f"operator trees of 5-6 leaves nested as (compound) op (compound) under a third operator (family 'deep', level {b['deep']}), "
+                f"plus (family 'long', deviation-bounded) chains [1][901] op [2][902] op ... of k in {LONG_K[tier]} attached pairs for the operator patterns {LONG_OPS} under the all-fulfilled assignment and every assignment with ONE unfulfilled resp. unknown key (full truth-table comparison with R3; the real format constraint evaluation under all-true / all-false / one deviating key); otherwise "
                 "x ALL 3^k assignments to the requirement keys x ALL 2^f truth assignments to the format keys. Oracle: the returned "
                 "format_constraints_expression is None or (i) accepted by the reference recogniser R2, (ii) built only from U/O/X, brackets "
                 "and FC keys of the source, (iii) accepted by format_constraint_evaluation, (iv) its truth table (R2 parse + Boolean "
@@ -40,6 +41,9 @@ def plan(tier, seed):
         parts = {1: 1, 2: 2, 3: 16, 4: 128, 5: 512}[n]
         for p in range(parts):
             items.append({"fam": "ast", "n": n, "lab": lab, "part": p, "parts": parts, "seed": seed})
+    for k in LONG_K[tier]:
+        for ops in range(len(LONG_OPS)):
+            items.append({"fam": "long", "k": k, "ops": ops, "seed": seed})
     for p in range(27):
         items.append({"fam": "deep", "part": p, "seed": seed, "level": BOUNDS[tier]["deep"]})
     return items
@@ -61,7 +65,32 @@ def _ref_ok_shape(ref, allowed):
     return False
 
 
-def check_expr(expr, only_assign=None):
+LONG_K = {"quick": [6, 9, 10, 11, 12], "thorough": [6, 7, 8, 9, 10, 11, 12, 13, 16]}
+LONG_OPS = ["U", "O", "X", "UO", "OX", "XU", "(UO", "(OX", "(XU", "(UOX"]  # "(..." = LEFT-NESTED with explicit brackets: (((a op1 b) op2 c) op1 d) ...
+
+
+def long_cases(k, ops):
+    """chain  [1][901] op [2][902] op ... [k][900+k]  (operators alternate through `ops`); assignments: all fulfilled, and every
+    assignment with exactly one key UNFULFILLED resp. UNKNOWN (deviation-bounded: 1 + 2k of the 3^k)"""
+    pat = LONG_OPS[ops]
+    expr = ""
+    if pat.startswith("("):
+        pat = pat[1:]
+        expr = "[1][901]"
+        for i in range(2, k + 1):
+            expr = f"({expr} {pat[(i - 2) % len(pat)]} [{i}][{900 + i}])"
+    else:
+        for i in range(1, k + 1):
+            expr += (f" {pat[(i - 2) % len(pat)]} " if i > 1 else "") + f"[{i}][{900 + i}]"
+    keys = [str(i) for i in range(1, k + 1)]
+    assigns = [{x: "F" for x in keys}]
+    for dev in ("U", "?"):
+        for x in keys:
+            assigns.append({y: (dev if y == x else "F") for y in keys})
+    return expr, assigns
+
+
+def check_expr(expr, only_assign=None, real=True):
     I = X.init()
     out = []
     pr = X.parse(expr)
@@ -117,6 +146,23 @@ def check_expr(expr, only_assign=None):
                         "msg": f"{expr} under {a}: truth table of {s!r} differs from the direct reading"})
             continue
         # (iii)+(iv) through the real format constraint evaluation, once per distinct returned string
+        if not real and len(fckeys) > 6:
+            # long chains: the real evaluation under all-true, all-false and every valuation with one deviating key
+            rows_ok = True
+            for base_val in (True, False):
+                for dev in [None] + list(fckeys):
+                    val = {k: (base_val if k != dev else not base_val) for k in fckeys}
+                    fr = X.eval_fc(s, val)
+                    n += 1
+                    want = R2.to_bool(ref, val)
+                    if fr[0] != "ok" or fr[1] is not want:
+                        rows_ok = False
+                        out.append({"kind": "format-evaluation-disagrees", "case": case, "expected": want, "observed": fr[1],
+                                    "msg": f"format_constraint_evaluation({s!r}) under {val}"})
+                        break
+                if not rows_ok:
+                    break
+            continue
         if s not in real_cache:
             rows = []
             for vals in itertools.product((False, True), repeat=len(fckeys)):
@@ -156,6 +202,22 @@ def run_item(item):
     X.init()
     r = Result()
     pools = X.pools(item["seed"])
+    if item["fam"] == "long":
+        expr, assigns = long_cases(item["k"], item["ops"])
+        for a in assigns:
+            vs, n, nt, amb = check_expr(expr, a, real=False)
+            r.stat("ambiguous_I1_pairs", amb)
+            r.stat("long_chain_assignments")
+            r.evaluations += n
+            r.states += n
+            r.transitions += n
+            r.nontrivial += nt
+            for v in vs:
+                v["case"]["long"] = True
+                r.violation(v["kind"], v["case"], v["expected"], v["observed"], v["msg"])
+        r.traces += 1
+        r.sample({"expr": expr, "assignments": len(assigns)})
+        return r
     if item["fam"] == "deep":
         todo = [X.render(t, item["seed"]) for t in _deep_exprs(item["part"], item["level"], pools) if A.is_valid(t)]
     else:
@@ -184,4 +246,4 @@ def run_item(item):
 
 
 def replay(case):
-    return check_expr(case["expr"], case.get("assign"))[0]
+    return check_expr(case["expr"], case.get("assign"), real=not case.get("long"))[0]
